@@ -1665,14 +1665,21 @@ Proof.
           - intros sid s (Ha & Hx & _). split; assumption.
           - intros s [Ha [Hx _]]. split; assumption. }
         intros sid.
-        eapply tot_bind with (Q := fun _ => Core DT).
-        { apply tot_modify. intros s [Ha [(HD & (HM & _) & Hs) Hn]].
-          assert (Core DT (w_minifat_start s sid)).
-          { split; [exact Ha|]. split; [exact HD|]. split; [|exact Hs]. split; [exact HM|].
-            intros _. exact Hn. }
-          split; assumption. }
-        intros _. eapply tot_conseq; [apply (header_write_tot (Core DT)); [apply xstable_Core|reflexivity]| | |].
-        + intros s H; exact H. + intros a s H; exact H. + intros s H; exact H.
+        (* the header is written first; the chain start is remembered after *)
+        assert (HXx : xstable (AX X)).
+        { apply xstable_and; [exact xstable_AllSafe|].
+          intros s s' E. apply HX. apply eqx_eqA. exact E. }
+        eapply tot_bind with (Q := fun _ => AX X).
+        { eapply tot_conseq; [apply (header_write_tot (AX X)); [exact HXx|reflexivity]| | |].
+          + intros s H; exact H.
+          + intros a s H; exact H.
+          + intros s [Ha [Hx _]]. split; assumption. }
+        intros _.
+        apply tot_modify. intros s [Ha [(HD & (HM & _) & Hs) Hn]].
+        assert (Core DT (w_minifat_start s sid)).
+        { split; [exact Ha|]. split; [exact HD|]. split; [|exact Hs]. split; [exact HM|].
+          intros _. exact Hn. }
+        split; assumption.
       - eapply tot_bind.
         { eapply tot_conseq; [apply (chain_new_tot (fun s => s = s1) (minifat_start s1) IFat)| | |].
           - intros s ->. apply H1.
@@ -1698,23 +1705,26 @@ Proof.
         intros c2. eapply tot_conseq; [apply (header_write_tot (Core DT)); [apply xstable_Core|reflexivity]| | |].
         + intros s H; exact H. + intros a s H; exact H. + intros s H; exact H. }
     intros _. apply tot_get_bind. intros s2 H2. cbv zeta.
-    set (X := fun s => Aux DT s /\ minifat s = minifat s2).
+    set (Y := fun s => minifat s = minifat s2).
     set (Yn := fun s => lenN (minifat s2) < lenN (minifat s)).
-    assert (HX : astable X) by (apply astable_and; [apply astable_Aux|apply (astable_minifat (fun m => m = minifat s2))]).
-    eapply tot_bind with (Q := fun _ => AX (AY DT Yn)).
-    { eapply tot_conseq; [apply (set_minifat_tot X (AY DT Yn) (lenN (minifat s2)) v HX)| | |].
-      - intros s [_ H]. rewrite H. lia.
-      - intros s [Ha Hi] Hne. split; [apply Aux_put_minifat; assumption|].
-        unfold Yn. cbn [minifat w_minifat]. rewrite Hi. unfold put_cell. rewrite N.eqb_refl, lenN_snoc. lia.
-      - apply set_minifat_allsafe. exact Hv.
+    assert (HYd : dstable Y) by (apply (dstable_minifat (fun m => m = minifat s2))).
+    assert (HX : astable (AY DT Y)) by (apply astable_AY; exact HYd).
+    (* the mini stream grows first ... *)
+    eapply tot_bind with (Q := fun _ => AX (AY DT Y)).
+    { eapply tot_conseq; [apply (append_mini_sector_tot DT Y Hsc HYd)| | |].
       - intros s ->. destruct H2 as [Ha Hx]. split; [exact Ha|]. split; [exact Hx|reflexivity].
       - intros a s H; exact H.
-      - intros s [[Ha [Hx _]]|[Ha [Hx _]]]; split; assumption. }
+      - intros s [Ha [Hx _]]. split; assumption. }
+    (* ... then the MiniFAT entry is added *)
     intros _. eapply tot_bind with (Q := fun _ => AX (AY DT Yn)).
-    { eapply tot_conseq; [apply (append_mini_sector_tot DT Yn Hsc (dstable_minifat (fun m => lenN (minifat s2) < lenN m)))| | |].
+    { eapply tot_conseq; [apply (set_minifat_tot (AY DT Y) (AY DT Yn) (lenN (minifat s2)) v HX)| | |].
+      - intros s [_ H]. unfold Y in H. rewrite H. lia.
+      - intros s [Ha Hi] Hne. split; [apply Aux_put_minifat; assumption|].
+        unfold Yn, Y in *. cbn [minifat w_minifat]. rewrite Hi. unfold put_cell. rewrite N.eqb_refl, lenN_snoc. lia.
+      - apply set_minifat_allsafe. exact Hv.
       - intros s H; exact H.
       - intros a s H; exact H.
-      - intros s [Ha [Hx _]]. split; assumption. }
+      - intros s [[Ha [Hx _]]|[Ha [Hx _]]]; split; assumption. }
     intros _. apply tot_ret. intros s [Ha [Hx Hy]]. split; [split; assumption|]. split; [split; assumption|exact Hy].
 Qed.
 
